@@ -34,6 +34,7 @@ type Resp struct {
 	Out    [][]uint64 `json:"out"`
 	Ticks  int        `json:"ticks"`
 	JSON   string     `json:"json"` // machine JSON (Jsoner) if requested
+	Reqs   string     `json:"reqs"` // requirement tree (bmreqs.ExportedReqs as JSON) if JSON was requested
 	Crash  bool       `json:"crash"`
 	IOSeq  [][]string `json:"io_seq"` // per processor: its handshake instructions in program order ("i0", "o1", ...)
 	Bonds  []string   `json:"bonds"`  // "producer,consumer" endpoint names
@@ -76,6 +77,8 @@ func Do(r Req) Resp {
 	if r.WantJSON {
 		b, _ := json.Marshal(res.BM.Jsoner())
 		out.JSON = string(b)
+		rb, _ := json.Marshal(res.Reqs)
+		out.Reqs = string(rb)
 	}
 	for _, dom := range res.BM.Processors {
 		d := res.BM.Domains[dom]
